@@ -1222,6 +1222,11 @@ func (f *frame) dynamicCall(in ssa.Instruction, c *ssa.CallCommon, args []Val, p
 		}
 	}
 	f.havocModsT(h, mods, false, touched, nil, true) // A7: a callback changes only the objects it is handed
+	{
+		// ghost call counter of the function value: lets a contract say that a record was handed to the callback
+		calls := e.ghost(h, "cb_calls")
+		e.setGhost(h, "cb_calls", calls, fv, fmt.Sprintf("(+ (select %s %s) 1)", calls, fv))
+	}
 	if resT != nil {
 		f.setResult(in, f.resultVal(nm, resT))
 	}
@@ -1298,6 +1303,11 @@ func (w *World) instrMods(e *Engine, fn *ssa.Function, ins ssa.Instruction, out 
 	case *ssa.MapUpdate:
 		n := "M." + tname(in.Map.Type())
 		out.m[n+".dom"], out.m[n+".val"], out.m[n+".card"] = true, true, true
+	case *ssa.Next, *ssa.Range:
+		if out.own {
+			// the visited set of a range loop in progress is state of this function's own iterators only
+			out.m["G.seen"], out.m["G.seen_s"] = true, true
+		}
 	case *ssa.Alloc, *ssa.MakeSlice, *ssa.Convert, *ssa.MakeMap:
 		// fresh storage: invisible to pre-existing objects
 		if out.own {
@@ -1369,6 +1379,7 @@ func (w *World) instrMods(e *Engine, fn *ssa.Function, ins ssa.Instruction, out 
 		if callee == nil {
 			// unknown function value: callback assumption A7
 			out.m["E.uint8"] = true
+			out.m["G.cb_calls"] = true
 			for _, a := range c.Args {
 				if p, ok := under(a.Type()).(*types.Pointer); ok {
 					if _, isStruct := under(p.Elem()).(*types.Struct); isStruct {
